@@ -125,7 +125,8 @@ class RKAdaptiveStepSolver(object):
 
             if _vh.ENABLED:
                 _vh.emit("ark.try", t0=t0, t1=t1, h_in=_vh_h_in, hstep=hstep, tnew=tnew, t1_achieved=t1_achieved,
-                         accepted=bool(accepted), prev_rejected=prev_rejected, h_out=h, errnorm=errnorm, solver=self)
+                         accepted=bool(accepted), prev_rejected=prev_rejected, h_out=h, errnorm=errnorm, solver=self,
+                         y0=y0, f0=f0, ynew=ynew, fnew=fnew)
             prev_rejected = not accepted
 
         rk_state = (fnew, tnew, ynew, h)
